@@ -257,10 +257,53 @@ def check_neighbour_of_own_walls(ctx, prog, rule="c06.dispatch"):
     ctx.floor(rule, "walks over Space::walls that ask for the other side", n, 1)
 
 
+def check_ua_of_unconditioned_space(ctx, prog, rule="c06.term"):
+    """EN ISO 6946 5.4.3 / EN ISO 13789: H_ue of an unconditioned space is the sum over its exterior and ground elements of (net opaque area x U) plus the
+    (area x U) of the windows in them.  The opaque term has to use the net area: with the gross area every opening is counted twice."""
+    from ..cfgq import iter_chain, closure_id_of, closure_env
+    f = prog.method("types::space::Space", None, "ua_of_external_and_ground_surfaces")
+    sc = Scope(prog, f)
+    rn = returned_nodes(f.body)
+    if len(rn) != 1:
+        raise AnalysisError("ua_of_external_and_ground_surfaces: single return expected")
+    n = strip(sc._rw(rn[0][1]))
+    if not (n[0] == "call" and short_callee(n[1]) == "sum"):
+        raise AnalysisError("ua_of_external_and_ground_surfaces: not a sum over the space's elements (%s)" % show(n)[:60])
+    ch = iter_chain(strip(n[2][0]))
+    fm = [c for (a, c) in ch.steps if a in ("filter_map", "map")]
+    if len(fm) != 1:
+        raise AnalysisError("ua_of_external_and_ground_surfaces: one map/filter_map step expected")
+    clo = strip(fm[0])
+    cf = prog.fns[closure_id_of(clo)]
+    csc = Scope(prog, cf, closure_env(clo), ("elem", "W", ()), sc)
+    terms = []
+    for b, x in returned_nodes(cf.body):
+        v = strip(csc._rw(x))
+        if v[0] == "agg" and v[1].split("::")[-1].startswith("Some") and v[3]:
+            terms.append(strip(v[3][0]))
+        elif v[0] == "bin":
+            terms.append(v)
+    if len(terms) != 1:
+        raise AnalysisError("ua_of_external_and_ground_surfaces: the per-element term was not found (%d candidates)" % len(terms))
+    t = terms[0]
+    key = rule + "|ua_of_external_and_ground_surfaces|opaque-area"
+    txt = show(t)
+    areas = [x for x in walk(t) if x[0] == "call" and short_callee(x[1]) in ("area", "area_net", "area_gross") and "W[]" in show(x) and "windows(" not in show(x).split("(")[0]]
+    wall_areas = [x for x in areas if strip(x[2][0]) == ("elem", "W", ()) or show(strip(x[2][0])) == "W[]"]
+    if not wall_areas:
+        raise AnalysisError("ua_of_external_and_ground_surfaces: no area of the element in its term (%s)" % txt[:80])
+    if all(short_callee(x[1]) == "area_net" for x in wall_areas) and "u_value(W[]" in txt:
+        ctx.ok(rule, key, "each exterior or ground element adds net area x U (plus area x U of its windows)", f.loc())
+    else:
+        ctx.violation(rule, key, "the opaque part of an element enters H_ue with %s instead of its net area: the openings are counted twice (once as wall, once as window), "
+                      "so U of the partition to the unconditioned space comes out too high" % "/".join(sorted({short_callee(x[1]) + "()" for x in wall_areas})), f.loc())
+
+
 def run(ctx):
     prog = ctx.prog
     check_intermediate_rounding(ctx, prog)
     check_neighbour_of_own_walls(ctx, prog)
+    check_ua_of_unconditioned_space(ctx, prog)
     tilt_variants = [v["name"] for v in prog.adt("bemodel::types::common::Tilt")["variants"]]
     ctx.require(tilt_variants == TILTS, "Tilt variants changed: %s" % tilt_variants)
     nrows = 0
